@@ -30,6 +30,7 @@ import (
 	"github.com/rqlite/rqlite/v10/http/console"
 	"github.com/rqlite/rqlite/v10/http/licenses"
 	"github.com/rqlite/rqlite/v10/internal/rtls"
+	"github.com/rqlite/rqlite/v10/internal/vhook"
 	"github.com/rqlite/rqlite/v10/proxy"
 	"github.com/rqlite/rqlite/v10/queue"
 	"github.com/rqlite/rqlite/v10/store"
@@ -1742,6 +1743,7 @@ func (s *Service) runQueue() {
 		case <-s.closeCh:
 			return
 		case req := <-s.stmtQueue.C:
+			vhook.Trace(s.stmtQueue, "hq.take", "seq", req.SequenceNumber, "n", len(req.Objects))
 			er := &proto.ExecuteRequest{
 				Request: &proto.Request{
 					Statements:  req.Objects,
@@ -1761,6 +1763,7 @@ func (s *Service) runQueue() {
 					}
 
 					_, _, _, err = s.proxy.Execute(context.Background(), er, nil, defaultTimeout, 0, false)
+					vhook.Trace(s.stmtQueue, "hq.try", "seq", req.SequenceNumber, "err", err)
 					if err == nil {
 						// Success!
 						break
@@ -1789,6 +1792,7 @@ func (s *Service) runQueue() {
 
 			// Perform post-write processing.
 			atomic.StoreInt64(&s.seqNum, req.SequenceNumber)
+			vhook.Trace(s.stmtQueue, "hq.done", "seq", req.SequenceNumber)
 			req.Close()
 			stats.Add(numQueuedExecutionsStmtsTx, int64(len(req.Objects)))
 			stats.Add(numQueuedExecutionsOK, 1)
